@@ -168,7 +168,7 @@ class GraphWorld:
                 task_graph=spec["name"],
                 job=job,
                 deadline=et(nd["deadline"]),
-                timestamp=0,
+                timestamp=nd.get("ts", 0),
                 release_time=et(nd["release"]),
                 _logger=_LOG,
             )
@@ -210,6 +210,7 @@ class GraphWorld:
                     "profile": i,
                     "release": nd["release"],
                     "deadline": nd["deadline"],
+                    "ts": nd.get("ts", 0),
                 }
             )
         try:
